@@ -163,6 +163,11 @@ func c17Command(rc *RunCtx, t *simrt.Tape) {
 		spec.Stdin = in
 		transport = "stdin-kseq"
 	} else {
+		if t.Choose(3) == 2 {
+			// explicit input format: no format sniffer in front of the reader
+			args = append(args, map[int]string{fmFasta: "--fasta", fmFastq: "--fastq"}[format])
+			transport = "file-explicit-format"
+		}
 		args = append(args, in)
 	}
 	spec.Args = args
@@ -201,7 +206,7 @@ func c17Command(rc *RunCtx, t *simrt.Tape) {
 		return
 	}
 	dec := "decoder-reported"
-	if transport == "file" && decoderSilent(codec, data) {
+	if transport != "stdin-kseq" && decoderSilent(codec, data) {
 		dec = "decoder-silent"
 	}
 	outcome := "ok-partial"
